@@ -30,6 +30,7 @@ static const size_t kGuard = 64;
 static const unsigned char kCanary = 0xCD;
 
 volatile uint64_t g_sanitizer_reports = 0;
+volatile uint64_t g_fd_misuse = 0;
 volatile unsigned g_bool_sink = 0;
 volatile uint64_t g_alloc_bytes = 0, g_alloc_max = 0, g_alloc_calls = 0, g_alloc_refused = 0;
 volatile bool g_meter = false;
@@ -129,7 +130,7 @@ ssize_t __wrap_read(int fd, void* buf, size_t n) {
     if (fd >= 1000000 || fd < 0) { errno = EBADF; return -1; }
     return __real_read(fd, buf, n);
   }
-  if (f->closed) { errno = EBADF; return -1; }
+  if (f->closed) { vf::g_fd_misuse = vf::g_fd_misuse + 1; errno = EBADF; return -1; }
   size_t lim = f->chunk;
   switch (next_answer(f)) {
     case 1: errno = EINTR; return -1;
@@ -152,7 +153,7 @@ ssize_t __wrap_write(int fd, const void* buf, size_t n) {
     if (fd >= 1000000 || fd < 0) { errno = EBADF; return -1; }
     return __real_write(fd, buf, n);
   }
-  if (f->closed) { errno = EBADF; return -1; }
+  if (f->closed) { vf::g_fd_misuse = vf::g_fd_misuse + 1; errno = EBADF; return -1; }
   size_t lim = f->chunk;
   switch (next_answer(f)) {
     case 1: errno = EINTR; return -1;
@@ -175,6 +176,7 @@ int __wrap_close(int fd) {
     if (fd >= 1000000 || fd < 0) { errno = EBADF; return -1; }
     return __real_close(fd);
   }
+  if (f->closed) vf::g_fd_misuse = vf::g_fd_misuse + 1;  // closed twice: in a real process the number may belong to someone else by now
   f->closed = true;
   f->closes++;
   return 0;
